@@ -302,7 +302,9 @@ def r5_input_frame(repo, rep):
       n += 1
       rep.violation('R5/inputs', f.qualname, norm(e.stmt)[:140],
                     'TBRMMData.__init__ modifies the caller\'s frame in place (%s) — the copy does not dominate this write' % norm(e.stmt)[:100], f.loc(e.stmt))
-  writes_df = [e for e, recv, c in effs if effects.root_name(e.target) == frame]
+  # in-place edits whose receiver is the frame parameter or a fresh copy derived from it (whatever the local is called)
+  writes_df = [e for e, recv, c in effs if effects.root_name(e.target) == frame or c == 'param:' + frame
+               or (c == 'fresh' and re.search(r'\b%s\.(copy|astype|assign|rename|reset_index)\(' % re.escape(frame), recv))]
   rep.check(n == 0, 'R5/inputs', 'all %d in-place edits of the frame act on a fresh copy' % len(writes_df), f.qualname, 'df writes', '', f.loc())
   rep.floor('in-place edits of the input frame examined', len(writes_df), 1)
 
